@@ -791,12 +791,32 @@ static void seq_eval(uint64_t idx, void *ctx) {
 /* ------------------------------------------------------------------ section: fill ------------------------- */
 /* every alphabet call issued when the encoder buffer has exactly r = 14..0 / 17..0 free bytes left before its first
  * (256) and second (512) growth point: the reserve-then-encode step must grow for every head width */
-static uint64_t fill_total(void) { return 2ull * 18 * NALPHA; }
+/* the alphabet calls plus container/tag/integer heads of every width (1, 2, 3, 5 and 9 bytes): a writer that reserves less
+ * than its widest head only fails when few bytes are free (added after a seeded change in write_map_start's reserve) */
+#define NFILL (NALPHA + 12)
+static struct witem fill_item(unsigned a) {
+    if (a < NALPHA) return alpha_item(a);
+    switch (a - NALPHA) {
+        case 0: return wi(W_ARRAY, 1ull << 32);
+        case 1: return wi(W_MAP, 1ull << 32);
+        case 2: return wi(W_TAG, 1ull << 32);
+        case 3: return wi(W_NEGINT, 1ull << 33);
+        case 4: return wi(W_ARRAY, 70000);
+        case 5: return wi(W_MAP, 70000);
+        case 6: return wi(W_TAG, 70000);
+        case 7: return wi(W_ARRAY, 300);
+        case 8: return wi(W_TAG, 300);
+        case 9: return wi(W_UINT, UINT64_MAX);
+        case 10: return wi(W_MAP, UINT64_MAX);
+        default: return wi(W_ARRAY, 24);
+    }
+}
+static uint64_t fill_total(void) { return 2ull * 18 * NFILL; }
 static void fill_eval(uint64_t idx, void *ctx) {
     (void)ctx;
     BEE_ITEM(idx);
     uint64_t i = idx;
-    unsigned a = bee_digit(&i, NALPHA), j = bee_digit(&i, 18), base = (unsigned)i;
+    unsigned a = bee_digit(&i, NFILL), j = bee_digit(&i, 18), base = (unsigned)i;
     if (base == 0 && j > 14) { /* 242 + j would pass 256: not a distinct state */
         V_COUNT("fill_skipped_duplicates", 1);
         return;
@@ -807,7 +827,7 @@ static void fill_eval(uint64_t idx, void *ctx) {
     if (base) w[n++] = ws(W_BYTES, 250, 12);    /* 495 bytes used, capacity 512 */
     for (unsigned k = 0; k < j; ++k) w[n++] = wi(W_NULL, 0);
     int at = n;
-    w[n++] = alpha_item(a);
+    w[n++] = fill_item(a);
     w[n++] = ws(W_TEXT, 2, 0);
     run_program(w, n, 1u << M_PEEK_POP | 1u << M_POP, -1, -1, RP_RESET);
     V_COUNT("evaluations", 1);
